@@ -48,6 +48,8 @@
 
 #include <exception>
 
+#include <unifex/detail/verif_hooks.hpp>
+
 #include <unifex/detail/prologue.hpp>
 
 namespace unifex {
@@ -486,8 +488,10 @@ struct _sr_thunk_promise_base : _promise_base {
     _sr_thunk_promise_base* self;
 
     void set_value(bool) noexcept {
+      UNIFEX_VERIF_POINT(453);
       if (self->refCount_.fetch_sub(1, std::memory_order_acq_rel) == 1) {
         UNIFEX_ASSERT(self->whoToContinue_);
+        UNIFEX_VERIF_POINT(455);
 
         if (self->frame_) {
           unifex::detail::ScopedAsyncStackRoot root;
@@ -516,6 +520,7 @@ struct _sr_thunk_promise_base : _promise_base {
         return;
       }
 
+      UNIFEX_VERIF_POINT(451);
       unifex::start(self->stopOperation_);
     }
   };
@@ -587,12 +592,14 @@ struct _sr_thunk_promise_base : _promise_base {
 
     // if we're last to complete, continue our continuation; otherwise do
     // nothing and wait for the async stop request to do it
+    UNIFEX_VERIF_POINT(452);
     if (refCount_.fetch_sub(1, std::memory_order_acq_rel) == 1) {
       frameState.restore_frame_state();
 
       return whoToContinue;
     } else {
       // the deferred stop callback will reactivate this frame
+      UNIFEX_VERIF_POINT(454);
       return coro::noop_coroutine();
     }
   }
